@@ -46,6 +46,17 @@ func clk(sec int, fired string) drive.Stim {
 }
 
 func ans() drive.Stim { return drive.Stim{Kind: "answer"} }
+
+// ansK answers with an error mode: err | skip | exit | retry, or "pending" =
+// an error whose handler channel never delivers a decision (the token waits
+// for it until the instance is cancelled).
+func ansK(kind string, retries int) drive.Stim {
+	return drive.Stim{Kind: "answer", Ans: &model.Answer{Kind: kind, Retries: retries}}
+}
+
+type pendingErr struct{}
+
+func (pendingErr) Error() string { return "error whose handling is still being decided" }
 func sig(ref string) drive.Stim {
 	return drive.Stim{Kind: "event", Ev: &model.Ev{Kind: "signal", Ref: ref}}
 }
@@ -180,6 +191,10 @@ func corpus() []entry {
 		out = append(out, entry{Name: "cycle timer beside a task, then a timer that never fires", G: b.G, Timer: true,
 			Script: []drive.Stim{ans(), clk(10, "R3/PT10S"), clk(10, ""), ans(), clk(30, "")}})
 	}
+	// error modes of task answers: a decision that never comes, retry, skip, exit
+	add("error answer whose handler decision is pending", lower(seq(&gen.Block{K: "par", Def: -1, Kids: []*gen.Block{seq(task()), seq(task(), task())}}, task())), nil, ansK("pending", 0), ans(), ans())
+	add("retry, skip, exit and plain error answers", lower(seq(task(), task(), &gen.Block{K: "par", Def: -1, Kids: []*gen.Block{seq(task()), seq(task())}}, task())), nil,
+		ansK(model.AnsRetry, 2), ansK(model.AnsRetry, 2), ans(), ansK(model.AnsSkip, 0), ansK(model.AnsErr, 0), ansK(model.AnsExit, 0))
 	return out
 }
 
@@ -306,11 +321,24 @@ func run(d descriptor, k int) *result {
 			if n := e.G.Node(node); n != nil && len(n.Results) == 1 && strings.HasPrefix(n.Results[0], "lp") {
 				a.Results = map[string]any{n.Results[0]: false}
 			}
+			if s.Ans != nil && s.Ans.Kind == "pending" {
+				// for the model the token is gone (it only chooses what to answer next)
+				m.Answer(0, model.Answer{Kind: model.AnsExit})
+				never := make(chan bpmn.ErrHandler)
+				calls.Add(1)
+				go func() { defer calls.Done(); tt.Do(bpmn.DoWithErrHandle(pendingErr{}, never)) }()
+				continue
+			}
+			if s.Ans != nil {
+				a.Kind, a.Retries = s.Ans.Kind, s.Ans.Retries
+			}
 			m.Answer(0, a)
 			calls.Add(1)
 			go func() {
 				defer calls.Done()
-				if a.Results != nil {
+				if a.Kind != model.AnsOK {
+					drive.DoAnswer(tt, a)
+				} else if a.Results != nil {
 					tt.Do(bpmn.DoWithResults(a.Results))
 				} else {
 					tt.Do()
